@@ -11,7 +11,7 @@ RUNS = {"quick": 30000, "thorough": 1500000}
 BUDGET_S = {"quick": 45, "thorough": 480}
 BATCH = 400
 RULE = ("one run = 1-5 concurrent (PGN, source, destination) streams chosen to collide on every pair of key components "
-        "x 1-6 messages per stream (payload 1..223 bytes, 3-bit counter +1 per message) x per non-first frame: drop, "
+        "x 1-6 messages per stream (payload 1..223 bytes; 3-bit counter +1 per message, or any walk over 2-3 values in which consecutive messages differ) x per non-first frame: drop, "
         "1-3 copies, delay inside the message or stray into the next <=3 messages x a random interleaving of the streams "
         "x frame padding (none / FF / 00 / random) x the frame-level entry point (EByte, USB, Yacht Devices, plain). "
         "Every delivered frame is judged against a per-stream reference reassembler.  Non-trivial = at least two streams "
@@ -60,8 +60,17 @@ def gen(rng, idx, tier):
     lanes = []
     mk = 0
     for si, s in enumerate(streams):
-        seq0 = rng.randrange(8)
         nm = rng.randrange(1, 7)
+        # sequence counters: the usual +1 mod 8, or any walk in which consecutive messages differ (all the standard
+        # requires) over a small alphabet, so that a counter soon comes back (s, t, s, ...)
+        if rng.random() < 0.6:
+            seq0 = rng.randrange(8)
+            counters = [(seq0 + k) % 8 for k in range(nm)]
+        else:
+            alpha = rng.sample(range(8), rng.choice([2, 2, 3]))
+            counters = [rng.choice(alpha)]
+            while len(counters) < nm:
+                counters.append(rng.choice([a for a in alpha if a != counters[-1]]))
         lane = []
         for k in range(nm):
             L = rng.choice([1, 2, 5, 6, 7, 8, 12, 13, 14, 20, 21, 27, 34, 48, 100, 223]) if rng.random() < 0.7 else rng.randrange(2, 224)
@@ -72,12 +81,17 @@ def gen(rng, idx, tier):
                 payload = bytes([0xFF])
             if payload[-1] == 0:
                 payload = payload[:-1] + b"\x01"
-            seq = (seq0 + k) % 8
+            seq = counters[k]
             frames = n2k.fast_frames(payload, seq, None)
             mid = "m%d" % mk
             mk += 1
             messages[mid] = {"stream": list(s), "seq": seq, "payload": payload.hex(), "n": len(frames)}
             lane.append((k, 0.0, mid, 0))
+            # a frame of message k may arrive during a later message j only if no message in (k, j] carries k's counter:
+            # otherwise the protocol itself cannot tell whose frame it is
+            max_stray = 0
+            while max_stray < 3 and k + max_stray + 1 < nm and counters[k + max_stray + 1] != seq:
+                max_stray += 1
             for i in range(1, len(frames)):
                 copies = 1
                 if "drop" in faults and rng.random() < 0.12:
@@ -86,8 +100,8 @@ def gen(rng, idx, tier):
                     copies = rng.choice([2, 2, 3])
                 for c in range(copies):
                     stray = 0
-                    if "stray" in faults and rng.random() < 0.08:
-                        stray = rng.randrange(1, 4)
+                    if "stray" in faults and max_stray and rng.random() < 0.08:
+                        stray = rng.randrange(1, max_stray + 1)
                     if "reorder" in faults and rng.random() < 0.5:
                         u = rng.random() * 0.98 + 0.01
                     else:
